@@ -100,6 +100,9 @@ def t_independent(h):
         h.assume(ops.compare('<', lo, hi))
         decls.append(_decl(f'p{k}', ty, lo, hi))
         genes.append(h.int(f'g{k}', K.FIRST, K.LAST))
+    # a DNA may be longer than the declaration list (a gene of a retired parameter at the end): the declared positions still decode
+    if h.branch(h.bool('dna_has_a_trailing_extra_gene')):
+        genes = genes + [h.int('g_extra', K.FIRST, K.LAST)]
     out = h.outcome('jesse.helpers.dna_to_hp', decls, genes)
     h.prove(out.ok and isinstance(out.value, dict) and sorted(out.value) == ['p0', 'p1', 'p2'], 'dna_to_hp.one-entry-per-declaration')
     if not out.ok:
@@ -211,8 +214,16 @@ def mk_precedence(explicit, with_dna, with_decl):
         route.f['strategy_name'] = Builtin('UserStrategy', lambda i, a, k: i.instantiate(scls, [], {}))
         router = Obj(None, {'routes': [route]}, name='router')
         ov = h.ctx.cfg.overrides
-        ov['jesse.strategies.Strategy.Strategy.dna'] = lambda i, a, k: dna
-        ov['jesse.strategies.Strategy.Strategy.hyperparameters'] = lambda i, a, k: decl
+        attached = []
+
+        def rec(val):
+            def f(i, a, k):
+                st_ = a[0] if a else None
+                attached.append(None if st_ is None else (st_.f.get('symbol'), st_.f.get('timeframe'), st_.f.get('exchange')))
+                return val
+            return f
+        ov['jesse.strategies.Strategy.Strategy.dna'] = rec(dna)
+        ov['jesse.strategies.Strategy.Strategy.hyperparameters'] = rec(decl)
         ov['jesse.services.selectors.get_position'] = lambda i, a, k: pos
         h.ctx.cfg.globals['jesse.modes.backtest_mode.router'] = lambda i: router
         h.ctx.cfg.globals['jesse.services.api.api'] = lambda i: Obj(None, {'drivers': {}}, name='api')
@@ -226,6 +237,9 @@ def mk_precedence(explicit, with_dna, with_decl):
         h.prove(ok, 'precedence.strategy-attached-to-position')
         if not ok:
             return
+        # a strategy may derive its DNA / declarations from its market (self.symbol, self.timeframe): the route is attached first
+        h.prove(attached != [] and all(x == ('BTC-USDT', '1m', 'Sandbox') for x in attached),
+                'precedence.the-route-is-attached-before-dna-and-declarations-are-read', {'seen': [str(x) for x in attached[:4]]})
         want = h.spec('expected_hp', H, dna, decl)
         got = st.f.get('hp')
         if explicit:
